@@ -426,7 +426,54 @@ impl Model {
                     _ => throw("type error: chain cannot use nonblock in operator position"),
                 }
             }
-            Ex::Chain(..) => unknown("chain"),
+            Ex::Chain(first, rest) => {
+                // operands and operators are evaluated once, left to right; grouping follows the
+                // precedence and associativity carried by the operator *values* at this moment
+                let mut operands = vec![self.eval(sc, first)?];
+                let mut ops: Vec<(Rc<FuncV>, f64, bool)> = Vec::new();
+                for (op, x) in rest {
+                    let opv = match Model::lookup(sc, op) {
+                        Some(v) => v,
+                        None => return throw("name error: no such variable"),
+                    };
+                    let f = match &opv {
+                        V::Func(f) => f.clone(),
+                        _ => return throw("type error: chain cannot use nonblock in operator position"),
+                    };
+                    let (prec, right) = match precedence_of(&f) {
+                        Some(p) => p,
+                        None => return unknown("precedence of this function value"),
+                    };
+                    if chains_with_neighbours(&f) {
+                        return unknown("self-chaining operator in a multi-operator chain");
+                    }
+                    ops.push((f, prec, right));
+                    operands.push(self.eval(sc, x)?);
+                }
+                // operator-precedence reduction
+                let mut vals: Vec<V> = vec![operands.remove(0)];
+                let mut pend: Vec<(Rc<FuncV>, f64, bool)> = Vec::new();
+                for (op, operand) in ops.into_iter().zip(operands.into_iter()) {
+                    while let Some(top) = pend.last() {
+                        let tighter = top.1 > op.1 || (!(top.1 < op.1) && !top.2);
+                        if !tighter {
+                            break;
+                        }
+                        let (f, _, _) = pend.pop().unwrap();
+                        let r = vals.pop().unwrap();
+                        let l = vals.pop().unwrap();
+                        vals.push(self.call_func_at(sc, &f, vec![l, r])?);
+                    }
+                    pend.push(op);
+                    vals.push(operand);
+                }
+                while let Some((f, _, _)) = pend.pop() {
+                    let r = vals.pop().unwrap();
+                    let l = vals.pop().unwrap();
+                    vals.push(self.call_func_at(sc, &f, vec![l, r])?);
+                }
+                Ok(vals.pop().unwrap())
+            }
             Ex::Update(x, kvs) => {
                 let mut xv = self.eval(sc, x)?;
                 for (k, v) in kvs {
@@ -603,7 +650,40 @@ impl Model {
                 self.assign(sc, &bl, None, ao)?;
                 Ok(V::Null)
             }
-            Ex::Freeze(_) => unknown("freeze"),
+            Ex::Freeze(inner) => {
+                let a = crate::freevars::Analysis::of(inner);
+                if let Some(m) = &a.ambiguous {
+                    return unknown(&format!("freeze: {}", m));
+                }
+                // every free variable is resolved now; frozen code cannot write to an outer variable
+                let mut snapshot = Vec::new();
+                for n in a.free_read.iter().chain(a.free_written.iter()) {
+                    match Model::lookup(sc, n) {
+                        Some(v) => snapshot.push((n.clone(), Ty::Any, v)),
+                        None => return throw("name error: free variable of frozen expression is unbound"),
+                    }
+                }
+                if !a.free_written.is_empty() {
+                    return throw("name error: frozen code assigns to an outer variable");
+                }
+                let frozen_scope = new_scope(None);
+                frozen_scope.borrow_mut().vars = snapshot;
+                self.probe("freeze");
+                match &**inner {
+                    Ex::Lambda(params, body) => Ok(V::Func(Rc::new(FuncV::Closure {
+                        params: params.clone(),
+                        body: (**body).clone(),
+                        env: frozen_scope,
+                    }))),
+                    other => {
+                        if a.declares_at_top {
+                            return unknown("freeze of an expression that declares in the current scope");
+                        }
+                        let child = new_scope(Some(frozen_scope));
+                        self.eval(&child, other)
+                    }
+                }
+            }
             Ex::StructDef(name, fields) => {
                 let mut fs = Vec::new();
                 for (f, d) in fields {
@@ -2164,6 +2244,50 @@ impl Model {
             Ty::Float | Ty::Rational => unknown("float/rational conversion"),
             _ => throw("type error: that type can't be called"),
         }
+    }
+}
+
+/// precedence and right-associativity carried by a function value: builtins get theirs from the name
+/// they are registered under, every other function value has precedence 0 and associates left
+pub fn precedence_of(f: &Rc<FuncV>) -> Option<(f64, bool)> {
+    match &**f {
+        FuncV::Builtin(name) => {
+            let p = name
+                .chars()
+                .map(|c| {
+                    if c.is_alphanumeric() || c == '_' {
+                        0.0
+                    } else {
+                        match c {
+                            '=' | '<' | '>' => 1.0,
+                            '$' => 2.0,
+                            '|' => 3.0,
+                            '+' | '-' | '~' => 4.0,
+                            '*' | '/' | '%' | '&' => 5.0,
+                            '^' => 6.0,
+                            '!' | '?' => 7.0,
+                            _ => 8.0,
+                        }
+                    }
+                })
+                .fold(f64::INFINITY, f64::min);
+            if name == "<<" || name == ">>" {
+                return None;
+            }
+            Some((p, name == "^" || name == ".+"))
+        }
+        FuncV::Closure { .. } | FuncV::Type(_) | FuncV::Field(..) | FuncV::Memo(..) => Some((0.0, false)),
+    }
+}
+
+/// operators that merge with their neighbours into one n-ary application (comparisons, zip, ...)
+fn chains_with_neighbours(f: &Rc<FuncV>) -> bool {
+    match &**f {
+        FuncV::Builtin(name) => matches!(
+            name.as_str(),
+            "==" | "!=" | "<" | "<=" | ">" | ">=" | "zip" | "**" | "to" | "til" | "fold" | "by" | "with" | "from"
+        ),
+        _ => false,
     }
 }
 
